@@ -1,5 +1,5 @@
 (* C06 Route parser: total, accepts exactly the grammar, canonical form is a fixpoint. *)
-Require Import Base Route Lexer LexerProofs LexSteps Parser Grammar Unparse UnparseProofs SourceFacts.
+Require Import Base Route Lexer LexerProofs LexSteps Parser Grammar Unparse UnparseProofs ParseSound SourceFacts.
 
 (* --- tie to the source, re-checked on every run against the regenerated gen/SourceFacts.v --- *)
 (* the lexer rule table extracted from internal/route/parser.go IS the table the model interprets *)
@@ -41,9 +41,34 @@ Proof. exact render_is_unparse. Qed.
 Theorem C06_canonical_fixpoint : forall r, wf_route r -> parse (render_route r) = Some r.
 Proof. exact parse_render. Qed.
 
-(* SOUNDNESS - "parse s = Some r -> wf_route r /\ exists sr, erase sr = r /\ unparse sr = s" - is NOT
-   proved yet; it is evaluated on every generated string against the byte-level recogniser
-   Grammar.bnf_parse (exhaustively up to a length bound over the token alphabet). *)
+(* SOUNDNESS: whatever is accepted is the spelling of a derivation whose AST is the result *)
+Theorem C06_accepts_only_derivations : forall s r, parse s = Some r ->
+  wf_route r /\ exists sr, erase sr = r /\ unparse sr = s.
+Proof. exact parse_sound. Qed.
+
+(* EXACTNESS: accepted iff derivable, and the result is the derivation's AST *)
+Theorem C06_exact : forall s r, parse s = Some r <-> (wf_route r /\ exists sr, erase sr = r /\ unparse sr = s).
+Proof. exact parse_exact. Qed.
+
+(* for every accepted input: the rendering is the same derivation with every spacing set to one blank,
+   it parses to the same structure, and so renders to itself *)
+Theorem C06_canonical : forall s r, parse s = Some r ->
+  (exists sr, unparse sr = s /\ render_route r = unparse (canon (erase sr))) /\
+  parse (render_route r) = Some r.
+Proof.
+  intros s r H. destruct (parse_sound s r H) as (W & sr & E & U). split.
+  - exists sr. split; [exact U|]. rewrite E. apply render_is_unparse. exact (proj2 W).
+  - apply parse_render. exact W.
+Qed.
+
+(* what every run of the lexer looks like (LexChain.v): each token produced by the first rule of the
+   current state accepting its first byte, greedy runs maximal, the rule's action giving the next state *)
+Theorem C06_lexer_runs_are_chains : forall tbl s ts, lex tbl s = Some ts -> LexChain.chain tbl [0] ts.
+Proof. exact LexChain.lex_chain. Qed.
+
+(* Grammar.bnf_parse is an independent byte-level reading of the BNF used as a second executable oracle
+   on the implementation's answers; its agreement with [parse] is evaluated, not proved (the theorems
+   above do not depend on it). *)
 
 Example C06_example :
   let s := [47;123;97;58;32;32;47;120;47;44;98;58;32;42;42;125;47;63;99]%N in   (* "/{a:  /x/,b: **}/?c" *)
@@ -60,3 +85,5 @@ Redirect "assum/C06.2" Print Assumptions C06_classes.
 Redirect "assum/C06.3" Print Assumptions C06_lexer_preserves_text.
 Redirect "assum/C06.4" Print Assumptions C06_accepts_every_derivation.
 Redirect "assum/C06.5" Print Assumptions C06_canonical_fixpoint.
+Redirect "assum/C06.6" Print Assumptions C06_exact.
+Redirect "assum/C06.7" Print Assumptions C06_canonical.
